@@ -101,13 +101,8 @@ def run(ctx):
     rnd = random.Random(ctx.seed * 7919 + 5)
     h = Harness()
     scens = scenarios(rnd, quick)
-    worlds, ws = [], []
-    steps = 0
-    for s in scens:
-        for w in poolsim.explore(h, s, rnd, 120 if quick else 3000, ctx):
-            worlds.append(w)
-            ws.append(s)
-            steps += w.steps
+    worlds, ws = poolsim.explore_all(h, scens, ctx.seed * 7919 + 5, 400 if quick else 15000, ctx)
+    steps = sum(w.steps for w in worlds)
     outcomes = {}
     for w in worlds:
         outcomes[w.outcome] = outcomes.get(w.outcome, 0) + 1
